@@ -60,7 +60,7 @@ def main(argv):
                 lines += run_harness(v, ['one', tag], seed)
         else:
             lines += run_harness(v, ['fixed'], seed)
-            n, every, procs = (4000, 4, 4) if tier == 'quick' else (100000, 5, 8)
+            n, every, procs = (2400, 5, 4) if tier == 'quick' else (100000, 5, 8)
             lines += run_harness_parallel(v, n, every, seed, procs)
         for l in lines:
             parts = l.split('\t')
@@ -100,7 +100,7 @@ def main(argv):
 
     mism = []
     if v.corr_ok and cases:
-        shard = max(40, (len(cases) + 15) // 16) if tier == 'quick' else 300
+        shard = max(40, (len(cases) + 7) // 8) if tier == 'quick' else 300
         mism, errs = coq_eval_cases(PROP, IMPORTS, 'c05case', cases, shard=shard)
         v.obligation('correspondence: model = implementation on %d compiled files (registers chosen per local in order, registers/immediates of every emitted instruction, diagnostics; vm_compute inside Coq)' % len(cases),
                      not mism and not errs, ('%d mismatches; ' % len(mism)) + '; '.join(errs)[:600] if (mism or errs) else '')
